@@ -261,6 +261,58 @@ fn worker(args: &[String]) -> i32 {
 }
 
 /// Does the program kill the process (abort, stack overflow ...) when run in a child?
+/// The violation class of a program, computed in a forked child (the driver is single-threaded).
+fn class_isolated(p: &Program) -> Option<String> {
+    unsafe {
+        let mut fds = [0i32; 2];
+        if libc::pipe(fds.as_mut_ptr()) != 0 {
+            return first_violation(p).map(|v| v.class());
+        }
+        let pid = libc::fork();
+        if pid < 0 {
+            libc::close(fds[0]);
+            libc::close(fds[1]);
+            return first_violation(p).map(|v| v.class());
+        }
+        if pid == 0 {
+            libc::close(fds[0]);
+            let c = first_violation(p).map(|v| v.class()).unwrap_or_default();
+            let b = c.as_bytes();
+            let mut off = 0;
+            while off < b.len() {
+                let n = libc::write(fds[1], b[off..].as_ptr() as *const libc::c_void, b.len() - off);
+                if n <= 0 {
+                    break;
+                }
+                off += n as usize;
+            }
+            libc::_exit(0);
+        }
+        libc::close(fds[1]);
+        let mut out = Vec::new();
+        let mut buf = [0u8; 4096];
+        loop {
+            let n = libc::read(fds[0], buf.as_mut_ptr() as *mut libc::c_void, buf.len());
+            if n <= 0 {
+                break;
+            }
+            out.extend_from_slice(&buf[..n as usize]);
+        }
+        libc::close(fds[0]);
+        let mut st = 0;
+        libc::waitpid(pid, &mut st, 0);
+        if !libc::WIFEXITED(st) || libc::WEXITSTATUS(st) != 0 {
+            return Some("process.abort[]".into());
+        }
+        let s = String::from_utf8_lossy(&out).to_string();
+        if s.is_empty() {
+            None
+        } else {
+            Some(s)
+        }
+    }
+}
+
 fn dies_in_child(p: &Program, tag: &str) -> bool {
     let path = format!("{}/work/abort-probe-{}-{}.json", verif_dir(), std::process::id(), tag);
     let rf = ReplayFile {
@@ -572,7 +624,9 @@ fn check(prop: &str, tier: &str) -> i32 {
             return 2;
         }
         let budget = if tier == "thorough" { 6000 } else { 2500 };
-        let (min, ms) = minimise(&f.program, budget, &mut |p| first_violation(p).map(|v| v.class()) == Some(class.clone()));
+        // candidates run in forked children: a shrunken history may kill the process (a panic
+        // inside a drop aborts) where the original only reported a violation
+        let (min, ms) = minimise(&f.program, budget, &mut |p| class_isolated(p) == Some(class.clone()));
         let r = run(&min, true);
         let v = r.violations.first().cloned().unwrap_or_else(|| f.violation.clone());
         let fname = format!("{}/replays/{}-{}-{}.json", verif_dir(), prop, sanitize(class), f.run_seed);
